@@ -154,6 +154,31 @@ func c14Order(p *Prog, r *Report) {
 		return true
 	})
 	r.Ob("reads-after-override", p.Pos(override.Pos), early == 0, fmt.Sprintf("%d reads of configuration fields before the batch-line overlay %s", early, where))
+	// the effective value of a key is the overlaid one: after the overlay the reader may only fill the documented
+	// empty-entry fallbacks, never transform a configured value
+	fallbacks := map[string]string{"WeatherFolder": "empty → default folder", "WeatherRootFolder": "empty → project root resolution", "ResultFileExt": "empty → extension of the result format"}
+	var rewritten []string
+	ast.Inspect(fi.Decl.Body, func(n ast.Node) bool {
+		as, ok := n.(*ast.AssignStmt)
+		if !ok {
+			return true
+		}
+		for _, l := range as.Lhs {
+			se, ok := l.(*ast.SelectorExpr)
+			if !ok {
+				continue
+			}
+			id, ok := se.X.(*ast.Ident)
+			if !ok || info.Uses[id] != cfg {
+				continue
+			}
+			if _, isFallback := fallbacks[se.Sel.Name]; !isFallback {
+				rewritten = append(rewritten, se.Sel.Name+" at "+p.Pos(as.Pos()))
+			}
+		}
+		return true
+	})
+	r.Ob("no-config-rewrite", p.Pos(override.Pos), len(rewritten) == 0, fmt.Sprintf("configuration fields assigned by the reader itself besides the listed empty-entry fallbacks (%d listed): %s — a value rewritten here is no longer the one the batch line or the file gave", len(fallbacks), orStr(strings.Join(rewritten, "; "), "none")))
 	// the returned value is the variable
 	ret := false
 	for _, e := range x.Events {
@@ -369,7 +394,7 @@ func sortedFuncKeys(p *Prog) []string {
 }
 
 func c14ArgOrder(p *Prog, r *Report) {
-	r.Rule("C14.R4", "argument order is immaterial: the batch-line tokens are stored in a map keyed by name, and both loops over that map are order-insensitive", 3)
+	r.Rule("C14.R4", "argument order is immaterial: the batch-line tokens are stored in a map keyed by name, every token of the line is examined, and both loops over that map are order-insensitive", 4)
 	fi, lit := runClosure(p)
 	if fi != nil {
 		info := fi.Pkg.TypesInfo
@@ -389,6 +414,42 @@ func c14ArgOrder(p *Prog, r *Report) {
 			return true
 		})
 		r.Ob("args-map", p.Pos(lit.Pos()), found, "batch-line tokens key=value are stored in a map keyed by the name")
+		// every token of the line is examined: the loop that fills the map has no early exit (a malformed token must not
+		// hide the keys written after it — the result would depend on the order of the tokens)
+		ast.Inspect(lit.Body, func(n ast.Node) bool {
+			rs, ok := n.(*ast.RangeStmt)
+			if !ok {
+				return true
+			}
+			fills := false
+			ast.Inspect(rs.Body, func(m ast.Node) bool {
+				if as, ok := m.(*ast.AssignStmt); ok && len(as.Lhs) == 1 {
+					if ix, ok := as.Lhs[0].(*ast.IndexExpr); ok && types.ExprString(ix.X) == "argValues" {
+						fills = true
+					}
+				}
+				return true
+			})
+			if !fills {
+				return true
+			}
+			early := ""
+			ast.Inspect(rs.Body, func(m ast.Node) bool {
+				switch t := m.(type) {
+				case *ast.BranchStmt:
+					if t.Tok == token.BREAK || t.Tok == token.GOTO {
+						early = p.Pos(t.Pos()) + " " + t.Tok.String()
+					}
+				case *ast.ReturnStmt:
+					early = p.Pos(t.Pos()) + " return"
+				case *ast.FuncLit, *ast.ForStmt, *ast.RangeStmt, *ast.SwitchStmt, *ast.SelectStmt:
+					return false
+				}
+				return true
+			})
+			r.Ob("all-tokens", p.Pos(rs.Pos()), early == "", "the loop that stores the batch-line tokens runs over every token (no break/return inside) "+early)
+			return false
+		})
 		ast.Inspect(lit.Body, func(n ast.Node) bool {
 			rs, ok := n.(*ast.RangeStmt)
 			if !ok || types.ExprString(rs.X) != "argValues" {
